@@ -2,7 +2,7 @@
    (pkg/preconfirmation) driven with real signers, the real topology and scripted streams.
    Definitions only. *)
 From Coq Require Import String List NArith ZArith Bool.
-From MevVerif Require Import lib.Bytes model.PreconfBidder.
+From MevVerif Require Import lib.Bytes gen.Generated model.PreconfBidder.
 Import ListNotations.
 Open Scope N_scope.
 
@@ -61,6 +61,7 @@ Record case := mkCase {
   vtbl : list (commitment * outcome bytes);          (* VerifyPreConfirmation of the real signer *)
   view : list peer;                                  (* connected peers, their scripts and times *)
   deadline : N;
+  on_real : bool;                                    (* class real-stream: the streams were libp2p's *)
   o_ret : N;
   o_contacted : list (bytes * list bid);             (* per NewStream call: peer, messages written *)
   o_delivered : list (N * commitment);               (* (step, value) received on the channel *)
@@ -82,15 +83,29 @@ Definition oracle_complete (c : case) : bool :=
   forallb (fun tc => has_key commitment_eqb (vtbl c) (snd tc)) (o_delivered c).
 
 (* --- correspondence: model prediction = observation -------------------------------------- *)
+(* the transport as it is in the repository, read off pkg/p2p/libp2p on every run: does
+   Service.NewStream hand the caller's context to host.NewStream, do stream.WriteMsg and
+   stream.ReadMsg select on ctx.Done().  (In the final select the driver's schedules never make
+   both cases ready, see class reply-at-deadline for the one that does.) *)
+Definition repo_transport : transport :=
+  mkTransport c05_newstream_ctx c05_write_ctx c05_read_ctx false.
+
+(* the scripted streams of the driver always watch the context *)
+Definition transport_of (c : case) : transport := if on_real c then repo_transport else ctx_transport.
+
 Definition agrees (c : case) : bool :=
-  match send_bid (oracles_of c) (args c) (view c) (deadline c) with
-  | SErr => o_ret c =? 1
-  | SPanic => o_ret c =? 2
-  | SRun r =>
-      (o_ret c =? 0) &&
-      perm_eqb contact_eqb (r_contacted r) (o_contacted c) &&
-      perm_eqb timed_eqb (r_delivered r) (o_delivered c) &&
-      match o_closed c with Some t => t =? r_close r | None => false end
+  match send_bid_op (transport_of c) (oracles_of c) (args c) (view c) (deadline c) with
+  | XErr => o_ret c =? 1
+  | XPanic => o_ret c =? 2
+  | XRun r =>
+      match xr_close r with
+      | Never => o_ret c =? 3                      (* the call never comes to rest *)
+      | At t =>
+          (o_ret c =? 0) &&
+          perm_eqb contact_eqb (xr_contacted r) (o_contacted c) &&
+          perm_eqb timed_eqb (xr_delivered r) (o_delivered c) &&
+          match o_closed c with Some t' => t' =? t | None => false end
+      end
   end.
 
 Definition mismatches (cs : list case) : list N :=
@@ -110,12 +125,16 @@ Definition candidates (D : N) (provs : list peer) : list commitment :=
                      | RFrames c _ => if arrives D p then [strip c] else []
                      | _ => [] end) provs.
 
-Definition offered_ok (sent : bid) (provs : list peer) (ct : bytes * list bid) : bool :=
+(* what was handed to WriteMsg on one contacted stream: never anything but the signed bid, at
+   most once; and the signed bid unless the stream could not be opened (the script makes NewStream
+   fail, or the context had already expired when the call was made) *)
+Definition offered_ok (sent : bid) (provs : list peer) (D : N) (ct : bytes * list bid) : bool :=
   match find (fun p => bytes_eqb (p_addr p) (fst ct)) provs with
   | None => false
-  | Some p => match p_reply p with
-              | RNewStreamErr => match snd ct with [] => true | _ => false end
-              | _ => list_eqb bid_eqb (snd ct) [sent]
+  | Some p => match snd ct with
+              | [] => match p_reply p with RNewStreamErr => true | _ => D =? 0 end
+              | ws => list_eqb bid_eqb ws [sent] &&
+                      match p_reply p with RNewStreamErr => false | _ => true end
               end
   end.
 
@@ -132,12 +151,15 @@ Definition check_run (vf : commitment -> outcome bytes) (sent : bid) (provs : li
   clause (sub_multiset commitment_eqb (map (fun tc => strip (snd tc)) delivered) (candidates D provs))
          "surfaced:duplicate" ++
   clause (perm_eqb bytes_eqb (map fst contacted) (map p_addr provs) &&
-          forallb (offered_ok sent provs) contacted) "not-offered" ++
+          forallb (offered_ok sent provs D) contacted) "not-offered" ++
   clause (match closed with
           | Some t => t =? max_list (map (finish_time D) provs)
           | None => false end) "not-closed".
 
+(* A question to the signer that the driver did not record is a defect of the driver: it is
+   reported as a broken correspondence ([mismatches]), never as a verdict on the implementation. *)
 Definition violation_keys (c : case) : list string :=
+  if negb (oracle_complete c) then [] else
   let provs := get_peers TProvider (view c) in
   match construct_of (csb c) (args c), provs with
   | Ok sent, _ :: _ =>
